@@ -678,6 +678,11 @@ class Interp(ExtMixin):
             if attr == "__class__" and klass is None:
                 yield st, ClassVal(o.cls, getattr(self, "class_home", {}).get(o.cls))
                 return
+            if (self.reg.lookup_method(o.cls, attr) is None and self.find_method(o.cls, attr) is None
+                    and attr not in getattr(o, "absent", ()) and attr not in getattr(klass, "absent", ())):
+                # an abstract object made by a harness lists the attributes the unchanged code reads; an attribute it does not list
+                # (and does not declare absent) is a gap of the model, not an AttributeError of the program: undecided, no obligation
+                raise Unsupported(f"the model of {o.cls} has no attribute {attr}")
             yield from self.class_attr(st, o, o.cls, attr, node)
             return
         if isinstance(o, HRef):
